@@ -203,6 +203,18 @@ std::string battery(NifFile& nif, ContentIds& ids, bool asJson) {
 				w.pod(ok);
 				if (ok) w.pod(bs);
 			}
+			// the weight lists as the skin data block holds them (entries per bone; the accessor above drops zero weights)
+			{
+				std::vector<uint32_t> kids;
+				shape->GetChildIndices(kids);
+				for (auto kid : kids)
+					if (auto si = hdr.GetBlock<NiSkinInstance>(kid))
+						if (auto sd = hdr.GetBlock(si->dataRef))
+							for (auto& bd : sd->bones) {
+								w.pod(uint32_t(bd.numVertices));
+								w.pod(uint32_t(bd.vertexWeights.size()));
+							}
+			}
 			MatTransform g;
 			bool ok = nif.GetShapeTransformGlobalToSkin(shape, g);
 			w.pod(ok);
